@@ -23,7 +23,7 @@ func init() {
 			"C09.5 every path through the timer arm re-arms the timer, and every sending path through the flush function stops and re-arms it. "+
 			"NOT decided: any wall-clock bound (timing is a run-time quantity no static argument here can bound), behaviour while the concurrency semaphore holds exports back.",
 		"go 1.23 timer semantics (module's go directive): Reset on a live timer is safe", "time.Timer fires once per arming")
-	register("C09", &core.Rule{ID: "C09.1", Title: "no empty batch is sent", Mod: core.ModCBP, Floor: 3, Run: c09_1})
+	register("C09", &core.Rule{ID: "C09.1", Title: "no empty batch is sent", Mod: core.ModCBP, Floor: 2, Run: c09_1})
 	register("C09", &core.Rule{ID: "C09.2", Title: "split iff max>0 and count>max", Mod: core.ModCBP, Floor: 3, Run: c09_2})
 	register("C09", &core.Rule{ID: "C09.3", Title: "config validation truth table", Mod: core.ModCBP, Floor: 2, Run: c09_3})
 	register("C09", &core.Rule{ID: "C09.4", Title: "flush-loop and timer-existence guards", Mod: core.ModCBP, Floor: 2, Run: c09_4})
@@ -465,8 +465,8 @@ func c09_4(c *core.Ctx, p *core.Prog) {
 	// (a) flush loop
 	var flushCalls []ssa.Instruction
 	for _, fn := range cbpFuncs(c, p) {
-		if fn == m.loopFn {
-			continue
+		if fn == m.loopFn || nonEmptyFlushHelper(a, fn) {
+			continue // the loop's own sends and "flush if non-empty" helpers (timer arm, shutdown) are not size-triggered
 		}
 		core.EachInstr(fn, func(i ssa.Instruction) {
 			if isCallTo(i, a.sendFn) {
@@ -500,13 +500,26 @@ func c09_4(c *core.Ctx, p *core.Prog) {
 	}
 	// (b) timer existence
 	var newTimer ssa.Instruction
-	core.EachInstr(m.loopFn, func(i ssa.Instruction) {
-		if cl, ok := i.(*ssa.Call); ok {
-			if f := core.CalleeObj(cl); core.IsPkgFunc(f, "time", "NewTimer") {
-				newTimer = i
+	findTimer := func(f *ssa.Function) {
+		core.EachInstr(f, func(i ssa.Instruction) {
+			if cl, ok := i.(*ssa.Call); ok {
+				if fo := core.CalleeObj(cl); core.IsPkgFunc(fo, "time", "NewTimer") {
+					newTimer = i
+				}
 			}
-		}
-	})
+		})
+	}
+	findTimer(m.loopFn)
+	if newTimer == nil {
+		// created by a helper the loop calls (`timerCh := b.startTimer()`)
+		core.EachInstr(m.loopFn, func(i ssa.Instruction) {
+			if cl, ok := i.(*ssa.Call); ok && newTimer == nil {
+				if h := cl.Call.StaticCallee(); h != nil && core.FnPkgPath(h) == core.CBPPath && len(h.Blocks) > 0 {
+					findTimer(h)
+				}
+			}
+		})
+	}
 	if newTimer == nil {
 		c.Undecided("timer-exists", p.Pos(m.loopFn.Pos()), core.FuncName(m.loopFn), "no time.NewTimer in the shard loop")
 		return
@@ -675,8 +688,8 @@ func c09_5(c *core.Ctx, p *core.Prog) {
 			}
 		}
 		skips := false
-		if !isCallTo(first, a.sendFn) {
-			if ok, _ := (core.PathQuery{Fn: fn, From: first, To: m.mainSelect, Avoid: func(i ssa.Instruction) bool { return isCallTo(i, a.sendFn) }, CutEdges: cut}).Exists(); ok {
+		if !flushesNonEmpty(a, first) {
+			if ok, _ := (core.PathQuery{Fn: fn, From: first, To: m.mainSelect, Avoid: func(i ssa.Instruction) bool { return flushesNonEmpty(a, i) }, CutEdges: cut}).Exists(); ok {
 				skips = true
 			}
 		}
@@ -688,7 +701,7 @@ func c09_5(c *core.Ctx, p *core.Prog) {
 	// (b) flush function: every path from a send to return re-arms
 	n := 0
 	for _, f := range cbpFuncs(c, p) {
-		if f == m.loopFn {
+		if f == m.loopFn || nonEmptyFlushHelper(a, f) {
 			continue
 		}
 		core.EachInstr(f, func(i ssa.Instruction) {
@@ -817,4 +830,70 @@ func debugFieldName(v *types.Var) string {
 		return "<nil>"
 	}
 	return v.Name()
+}
+
+// ---- helpers shared by the C09 rules: flushes that live in small helper functions ----
+
+// countPositiveCut: the false edges of `itemCount() > 0` tests in f.
+func countPositiveCut(a *cbpAnchors, f *ssa.Function) map[core.Edge]bool {
+	cut := map[core.Edge]bool{}
+	for _, b := range f.Blocks {
+		iff := core.IfOf(b)
+		if iff == nil {
+			continue
+		}
+		if cmp, ok := iff.Cond.(*ssa.BinOp); ok && cmp.Op == token.GTR {
+			if k, isC := core.ConstInt(cmp.Y); isC && k == 0 && core.DerivesFrom(cmp.X, func(v ssa.Value) bool {
+				cl, ok := v.(*ssa.Call)
+				return ok && cl.Call.IsInvoke() && cl.Call.Method == a.mCount
+			}) {
+				cut[core.Edge{From: b, To: b.Succs[1]}] = true
+			}
+		}
+	}
+	return cut
+}
+
+var nonEmptyFlushMemo = map[*ssa.Function]int{}
+
+// nonEmptyFlushHelper: a package function every path of which sends unless the batch is empty ("flush if there is
+// something": the body of the timer arm and of the shutdown flush when they are factored out).
+func nonEmptyFlushHelper(a *cbpAnchors, h *ssa.Function) bool {
+	if h == nil || h == a.sendFn || len(h.Blocks) == 0 || core.FnPkgPath(h) != core.CBPPath {
+		return false
+	}
+	switch nonEmptyFlushMemo[h] {
+	case 1:
+		return false
+	case 2:
+		return true
+	}
+	nonEmptyFlushMemo[h] = 1
+	sendsAtAll := false
+	core.EachInstr(h, func(i ssa.Instruction) {
+		if flushesNonEmpty(a, i) {
+			sendsAtAll = true
+		}
+	})
+	if !sendsAtAll {
+		return false
+	}
+	miss, _ := (core.PathQuery{Fn: h, CutEdges: countPositiveCut(a, h), ExitReturnOnly: true, Avoid: func(i ssa.Instruction) bool { return flushesNonEmpty(a, i) }}).Exists()
+	if miss {
+		return false
+	}
+	nonEmptyFlushMemo[h] = 2
+	return true
+}
+
+// flushesNonEmpty: the instruction is the send, or a call of a non-empty-flush helper.
+func flushesNonEmpty(a *cbpAnchors, i ssa.Instruction) bool {
+	if isCallTo(i, a.sendFn) {
+		return true
+	}
+	cl, ok := i.(*ssa.Call)
+	if !ok {
+		return false
+	}
+	return nonEmptyFlushHelper(a, cl.Call.StaticCallee())
 }
